@@ -338,6 +338,53 @@ def gen_df_case(rng, tier):
     return {"kind": "df", "columns": cols, "labels": gen_labels(rng, n)}
 
 
+def _strip_missing(cells):
+    return [c for c in cells if c[0] != "m"]
+
+
+def gen_df_blank_case(rng, tier):
+    """Frames with rows that are missing in EVERY column.  At least one integer-coded column
+    (ints + missing: float64 with NaN in pandas) whose multiplicities straddle the threshold and
+    whose missing cells sit only in the fully blank rows; the other columns are string / list /
+    float columns that are missing in the same rows (and possibly elsewhere).  Single-column
+    frames (integer codes with NaN only) are frequent."""
+    k = rng.randint(1, 3)
+    vals = rng.sample(range(-3, 12), k)
+    code = _rep(rng, [["i", v] for v in vals], _counts(rng, k))
+    m = len(code)
+    ncols = rng.wpick([(4, 1), (3, 2), (3, 3), (1, 4)])
+    names = rng.sample(VOCAB + ["0", "a b", "code"], ncols)
+    fams = ["int"] + [rng.pick(["int", "strcat", "multicat", "text", "date", "emb", "seqnum", "strlist", "float",
+                                "allmissing"]) for _ in range(ncols - 1)]
+    cols = []
+    for j, fam in enumerate(fams):
+        if j == 0:
+            cells = list(code)
+        elif fam == "allmissing":
+            cells = [_miss(rng) for _ in range(m)]
+        else:
+            base = _strip_missing(FAMILIES[fam](rng))
+            if fam == "float":      # keep a non-integral value so that the family stays unambiguous
+                base = base + [_fl(rng)]
+            cells = [base[i % len(base)] for i in range(m)]
+            if fam in STR_FAMS + LIST_FAMS and rng.chance(0.4):
+                cells[rng.randrange(m)] = _miss(rng)       # an extra missing cell outside the blank rows
+        cols.append([fam, cells])
+    nblank = rng.randint(1, 3)
+    for _ in range(nblank):
+        pos = rng.pick([0, m, rng.randint(0, m)])
+        kind = rng.pick(["none", "nan"])
+        for fam, cells in cols:
+            cells.insert(min(pos, len(cells)), ["m", kind])
+        m += 1
+    rng.shuffle(cols)
+    out = []
+    for nm, (fam, cells) in zip(names, cols):
+        sd = rng.pick(["object", "str"]) if fam in STR_FAMS else None
+        out.append({"name": nm, "family": fam, "sdtype": sd, "cells": cells})
+    return {"kind": "df", "blank_rows": nblank, "columns": out, "labels": gen_labels(rng, m)}
+
+
 def exhaustive_small(rng):
     """thorough tier: ALL row permutations of small columns of every family."""
     out = []
@@ -361,8 +408,11 @@ def generate(rng, tier):
     cases = []
     for fam in FAMILIES:                       # every family is present in every run
         cases += [gen_series_case(rng, tier, fam) for _ in range(4)]
+    cases += [gen_df_blank_case(rng, tier) for _ in range(12)]      # always present
     for _ in range(n):
-        cases.append(gen_df_case(rng, tier) if rng.chance(0.15) else gen_series_case(rng, tier))
+        r = rng.random()
+        cases.append(gen_df_case(rng, tier) if r < 0.1 else gen_df_blank_case(rng, tier) if r < 0.2
+                     else gen_series_case(rng, tier))
     if tier == "thorough":
         cases += exhaustive_small(rng)
     return cases
@@ -665,6 +715,16 @@ def stats(cases, obss):
         d["total"] += 1
         if c["kind"] == "df":
             d["df_cases"] += 1
+            nrows = len(c["columns"][0]["cells"]) if c["columns"] else 0
+            blank = sum(1 for i in range(nrows) if all(col["cells"][i][0] == "m" for col in c["columns"]))
+            if blank and any(any(x[0] != "m" for x in col["cells"]) for col in c["columns"]):
+                d["df_with_fully_blank_rows"] = d.get("df_with_fully_blank_rows", 0) + 1
+                d["df_single_column_blank"] = d.get("df_single_column_blank", 0) + (len(c["columns"]) == 1)
+                for col in c["columns"]:
+                    if col["family"] == "int":
+                        mm = min(_min_mults(col["cells"])[0], 7)
+                        d.setdefault("df_blank_int_min_multiplicity", {})
+                        d["df_blank_int_min_multiplicity"][mm] = d["df_blank_int_min_multiplicity"].get(mm, 0) + 1
             d["df_skipped_columns"] += len(c["columns"]) - len(o.get("items") or [])
             d["labelings"][c["labels"]["t"]] = d["labelings"].get(c["labels"]["t"], 0) + 1
             continue
